@@ -959,7 +959,7 @@ func checkC15(c *h.Check) {
 	c.Coverage["traces_validated_against_impl"] = ran
 	c.Coverage["ast_node_kinds_in_corpus"] = len(nodes)
 	c.Coverage["rule"] = fmt.Sprintf("%d rows, each a group of declarations placed in an injector file (one case per row plus all rows together), together covering %d distinct go/ast node kinds: const/var/type groups with iota, struct tags, embedding, aliases, interfaces, named results, variadics and ... calls, methods, method values/expressions, closures, defer/recover, goroutines, channel directions, select, labels with goto/break/continue, every switch form incl. type switches with binding and fallthrough, every for/range form, 2- and 3-index slices, composite literals with elision, every operator and assignment operator, number/rune/string/raw literals, generics (type parameter lists, constraints with unions, instantiations with one and several type arguments), qualified and dot-imported identifiers, locals/parameters/labels named like the generated file's import names and their second choices, doc comments. Oracle: (1) wire_gen.go parses and the copied declarations appear exactly once, in source order, structurally identical field by field (position flags included) up to wire's renaming; (2) the package compiles with wire_gen.go and with the originals; (3) the same driver prints identical lines for every row with the copies as with the originals.", len(rows), len(nodes))
-	if len(cases) > 0 {
+	if len(cases) > 9 && len(results) == len(cases) {
 		c.Samples = append(c.Samples, map[string]interface{}{"case": cases[9].ID, "decls": rows[9].decls, "trace": results[9].Trace})
 	}
 	c.Assumptions = append(c.Assumptions, "the corpus is finite: one row per construct, not every combination of constructs", "capture-freedom of wire's local renaming is decided by compiling and running the copy, not by the structural comparison")
